@@ -662,7 +662,7 @@ func utf8Cases(c *reg.Ctx, budget int) {
 		}
 		return
 	}
-	if c.Tier == "thorough" {
+	if deep(c) {
 		for _, b := range all {
 			utf8Bytes(c, b)
 		}
@@ -717,6 +717,11 @@ func utf8Cases(c *reg.Ctx, budget int) {
 	}
 }
 
+// deep says whether the exhaustive enumerations (all 65536 two-byte strings) are
+// affordable: only in a real thorough run, not in the orchestrator's intensified
+// search round (tier thorough with a small case budget).
+func deep(c *reg.Ctx) bool { return c.Tier == "thorough" && c.N >= 100000 }
+
 // ---------------------------------------------------------------- run
 
 func run(c *reg.Ctx) {
@@ -751,7 +756,7 @@ func run(c *reg.Ctx) {
 			oneString(c, string([]byte{byte(b)}), false)
 		}
 	}
-	if c.Tier == "thorough" {
+	if deep(c) {
 		for a := 0; a < 256; a++ {
 			for b := 0; b < 256; b++ {
 				s := string([]byte{byte(a), byte(b)})
